@@ -266,9 +266,9 @@ S_BOTP = st.fixed_dictionaries({
 
 def tests(tier):
     return [
-        Test("bash", S_BASH, run_bash, {"quick": 2500, "thorough": 50000}, CFG),
-        Test("prg", S_PRG, run_prg, {"quick": 2500, "thorough": 50000}, CFG),
-        Test("prg_inv", S_PRGINV, run_prg_inv, {"quick": 2000, "thorough": 40000}, CFG),
-        Test("brng", S_BRNG, run_brng, {"quick": 3000, "thorough": 60000}, CFG),
-        Test("botp", S_BOTP, run_botp, {"quick": 3000, "thorough": 60000}, CFG),
+        Test("bash", S_BASH, run_bash, {"quick": 5000, "thorough": 50000}, CFG),
+        Test("prg", S_PRG, run_prg, {"quick": 5000, "thorough": 50000}, CFG),
+        Test("prg_inv", S_PRGINV, run_prg_inv, {"quick": 4000, "thorough": 40000}, CFG),
+        Test("brng", S_BRNG, run_brng, {"quick": 6000, "thorough": 60000}, CFG),
+        Test("botp", S_BOTP, run_botp, {"quick": 6000, "thorough": 60000}, CFG),
     ]
